@@ -248,6 +248,32 @@ func (p c20) RunBatch(c *fw.Ctx) {
 			c.Sample(map[string]any{"universe": "random", "inserted": fmt.Sprintf("%q", words)})
 		}
 	}
+	// wide fan-out: nodes with 254, 255 and all 256 byte values as children, with and without the node being a word itself,
+	// one and two levels below the root (counters that are one byte wide wrap here)
+	fan := 0
+	for _, prefix := range []string{"", "k", "k\x00", "\xff\xff"} {
+		for _, nkids := range []int{2, 127, 128, 129, 254, 255, 256} {
+			for _, self := range []bool{false, true} {
+				for _, tail := range []string{"", "zz"} {
+					fan++
+					if fan%c.NBatches != c.Batch {
+						continue
+					}
+					var words []string
+					if self && prefix != "" {
+						words = append(words, prefix)
+					}
+					for b := 0; b < nkids; b++ {
+						words = append(words, prefix+string([]byte{byte(255 - b)})+tail) // from the top so that 255 is always there
+					}
+					qs := []string{"", prefix, prefix + "\xff", prefix + "\xff" + tail, prefix + "\x00", "k", "q"}
+					c.Begin(c20Case{Words: fw.QuoteAll(words)})
+					p.run(c, words, qs)
+					c.Count("fanout_sets", 1)
+				}
+			}
+		}
+	}
 	// REPL path
 	p.replSessions(c, c.Pick(40, 600))
 }
